@@ -27,6 +27,11 @@ MODELS = [
     ("parameters(k=2.0)\nstates(p=1.0, q=0.0)\ndp_dt = q\ndq_dt = -k*p\n"),
     # the linearisation of b vanishes only at the DEFAULT parameter values
     ("parameters(k_on=0, k_off=0, g=0.3)\nstates(b=0.5, V=-80.0)\ndb_dt = k_on*(1 - b) - k_off*b\ndV_dt = -g*(V + 60)*(1 - b)\n"),
+    # state names that are prefixes of each other (a stiff name must match the whole state name)
+    ("parameters(k=2.0, g=0.5)\nstates(Ca=1.0, Ca_sr=2.0, Ca_ss=0.5, V=-80.0)\n"
+     "dCa_dt = -k*Ca*Ca_ss + Ca_sr\ndCa_sr_dt = g*(Ca - Ca_sr)*V\ndCa_ss_dt = -Ca_ss*Ca_ss + Ca\ndV_dt = -g*V*Ca\n"),
+    # linearisations that vanish at some inputs without being identically zero
+    ("parameters(a=0.5, b=2.0, c=1.5)\nstates(x=1.0, y=2.0)\ndx_dt = -a*x*y + b\ndy_dt = -c*y*y*y + x\n"),
 ]
 
 
@@ -43,10 +48,12 @@ def tasks(tier, seed):
             subsets += [list(c) for c in itertools.combinations(names, r)]
         subsets.append([names[0], "not_a_state"])
         subsets.append(["not_a_state"])
+        if "Ca_sr" in names:
+            subsets += [["C"], ["Ca_"], ["Ca_s", "V"], ["Ca.*"], ["a"]]
         for S in subsets:
             bs = backends if tier != "quick" else [backends[n % 3]]
             n += 1
-            delta = [1e-8, 0.05, 0.5][n % 3]
+            delta = [1e-8, 0.05, 0.5, 0.0][n % 4]
             out.append({"family": "HYB", "id": text_id(text, [S, delta]), "text": text, "opts": {"stiff": S, "backends": bs, "delta": delta}})
     if tier != "quick":
         for p in families.corpus(["fitzhughnagumo.ode", "beeler_reuter_1977.ode", "lorentz.ode"]):
@@ -55,8 +62,29 @@ def tasks(tier, seed):
     return out + witness_tasks(PROP)
 
 
-def work(task):
-    prog = Prog(PROP, task, timeout_ms=15000)
+def check_hybrid(prog, view, m, Sset, tag):
+    """Relational: slot X of hybrid == slot X of generalized_rush_larsen (X stiff) or explicit_euler (otherwise) of the same module."""
+    parts = {}
+    for fn in ("explicit_euler", "generalized_rush_larsen", "hybrid_rush_larsen"):
+        r = checks.sym_function(prog, view, fn)
+        parts[fn] = r[0] if r else None
+    if any(v is None for v in parts.values()):
+        return
+    dom = checks.model_domain(prog, m)
+    for s, idx in checks.state_slots(view, m).items():
+        other = "generalized_rush_larsen" if s in Sset else "explicit_euler"
+        label = f"{tag}|hybrid|{s}|vs-{other}"
+        if idx not in parts["hybrid_rush_larsen"] or idx not in parts[other]:
+            prog.fact(label, False, "SlotNotWritten", f"slot {idx} ({s}) missing")
+            continue
+        ge = (lambda inputs, idx=idx: view.concrete("hybrid_rush_larsen", inputs)[idx])
+        re_ = (lambda inputs, idx=idx, other=other: view.concrete(other, inputs)[idx])
+        prog.eq(label, dom, parts["hybrid_rush_larsen"][idx], parts[other][idx], gen_eval=ge, ref_eval=re_,
+                what=f"hybrid[{s}] (stiff={sorted(Sset)}) vs {other}[{s}]")
+
+
+def work(task, prop=PROP):
+    prog = Prog(prop, task, timeout_ms=15000)
     m, ode = checks.load_all(prog, task["text"])
     if ode is None:
         return prog.result()
@@ -77,23 +105,7 @@ def work(task):
                   f"the caller's stiff_states list was modified by code generation: {shared} (was {list(S)})")
         if view is None:
             continue
-        parts = {}
-        for fn in ("explicit_euler", "generalized_rush_larsen", "hybrid_rush_larsen"):
-            r = checks.sym_function(prog, view, fn)
-            parts[fn] = r[0] if r else None
-        if any(v is None for v in parts.values()):
-            continue
-        dom = checks.model_domain(prog, m)
-        for s, idx in checks.state_slots(view, m).items():
-            other = "generalized_rush_larsen" if s in Sset else "explicit_euler"
-            label = f"{backend}|gen{gi}|hybrid|{s}|vs-{other}"
-            if idx not in parts["hybrid_rush_larsen"] or idx not in parts[other]:
-                prog.fact(label, False, "SlotNotWritten", f"slot {idx} ({s}) missing")
-                continue
-            ge = (lambda inputs, idx=idx: view.concrete("hybrid_rush_larsen", inputs)[idx])
-            re_ = (lambda inputs, idx=idx, other=other: view.concrete(other, inputs)[idx])
-            prog.eq(label, dom, parts["hybrid_rush_larsen"][idx], parts[other][idx], gen_eval=ge, ref_eval=re_,
-                    what=f"hybrid[{s}] (stiff={sorted(Sset)}) vs {other}[{s}]")
+        check_hybrid(prog, view, m, Sset, f"{backend}|gen{gi}")
         if backend == "c":
             view.close()
     real = Sset & set(m.states)
